@@ -4,7 +4,7 @@ import (
 	zz "rare/pkg/zzverif"
 )
 
-var zzHarnesses = map[string]func(){"H09Escape": H09Escape, "H09Split": H09Split, "H09Tree": H09Tree, "H09Errors": H09Errors}
+var zzHarnesses = map[string]func(){"H09Escape": H09Escape, "H09Split": H09Split, "H09SplitUni": H09SplitUni, "H09Tree": H09Tree, "H09Errors": H09Errors}
 
 // zzText: a string of 0..n characters drawn from the syntactic classes of the
 // template language (braces, backslash, quote, blank, the escape letters,
@@ -127,7 +127,7 @@ func zzRefSplit2(s string) ([]string, bool) {
 			}
 			cur += "}"
 			has = true
-		case (c == ' ' || c == '\t') && !quoted && depth == 0:
+		case (c == ' ' || (c >= '\t' && c <= '\r')) && !quoted && depth == 0:
 			if has {
 				args = append(args, cur)
 				cur, has = "", false
@@ -151,7 +151,7 @@ func H09Split() {
 	b := zz.Bytes(n)
 	for i := range b {
 		c := b[i]
-		zz.Assume(c == '{' || c == '}' || c == '"' || c == '\\' || c == ' ' || c == '\t' || c == 'a')
+		zz.Assume(c == '{' || c == '}' || c == '"' || c == '\\' || c == ' ' || (c >= '\t' && c <= '\r') || c == 'a')
 	}
 	s := string(b)
 	got := splitTokenizedArguments(s)
@@ -161,6 +161,19 @@ func H09Split() {
 	for i := range got {
 		zz.Assert(got[i] == want[i], "argument text differs from the documented splitting")
 	}
+	zz.Reached()
+}
+
+// H09SplitUni: white space beyond ASCII separates arguments too.
+func H09SplitUni() {
+	sep := []string{"\u0085", "\u00a0", "\u2003", "\u3000", "\u2028", "\r\n", "\v", "\f"}[zz.Choice(8)]
+	a, b := zz.String(1), zz.String(1)
+	zz.Assume(a[0] > ' ' && a[0] < 0x7f && a[0] != '{' && a[0] != '}' && a[0] != '"' && a[0] != '\\')
+	zz.Assume(b[0] > ' ' && b[0] < 0x7f && b[0] != '{' && b[0] != '}' && b[0] != '"' && b[0] != '\\')
+	got := splitTokenizedArguments(a + sep + b)
+	zz.Assert(len(got) == 2 && got[0] == a && got[1] == b, "white space other than blank and tab does not separate arguments")
+	got = splitTokenizedArguments("\"" + a + sep + b + "\"")
+	zz.Assert(len(got) == 1 && got[0] == a+sep+b, "quoted white space splits an argument")
 	zz.Reached()
 }
 
